@@ -14,6 +14,12 @@ inductive I
   | sw (rs : Reg) (off : BitVec 32) (base : Reg)
   | srli (rd rs : Reg) (k : Nat)
   | slli (rd rs : Reg) (k : Nat)
+  /-- RV64 only: `srliw`/`slliw` (32-bit shift of the low word, result sign-extended), `ld`/`sd` of a stack slot.
+      On the 32-bit projection of the machine (TJ.Asm.RV64) they act as `srli`/`slli`/`lw`/`sw`. -/
+  | srliw (rd rs : Reg) (k : Nat)
+  | slliw (rd rs : Reg) (k : Nat)
+  | ld (rd : Reg) (off : BitVec 32) (base : Reg)
+  | sd (rs : Reg) (off : BitVec 32) (base : Reg)
   | xor (rd rs rt : Reg)
   | and (rd rs rt : Reg)
   | addi (rd rs : Reg) (imm : Int)
@@ -33,6 +39,10 @@ def lower : I → Option Instr
   | .lw rd off base => some (.ldr rd base off (space base))
   | .sw rs off base => some (.str rs base off (space base))
   | .srli rd rs k => if k < 32 then some (.alu .mov false rd rd (.lsr rs k)) else none
+  | .srliw rd rs k => if k < 32 then some (.alu .mov false rd rd (.lsr rs k)) else none
+  | .slliw rd rs k => if k < 32 then some (.alu .mov false rd rd (.lsl rs k)) else none
+  | .ld rd off base => if base = sp then some (.ldr rd base off .stk) else none
+  | .sd rs off base => if base = sp then some (.str rs base off .stk) else none
   | .slli rd rs k => if k < 32 then some (.alu .mov false rd rd (.lsl rs k)) else none
   | .xor rd rs rt => some (.alu .xor false rd rs (.reg rt))
   | .and rd rs rt => some (.alu .and false rd rs (.reg rt))
